@@ -181,7 +181,8 @@ def run(ctx: Ctx, rep: Report) -> None:
             return None
 
         supers = [n for n in own_nodes(init.node) if isinstance(n, ast.Call) and isinstance(n.func, ast.Attribute) and n.func.attr == "__init__" and norm(n.func.value).startswith("super(")]
-        passes_value = len(supers) == 1 and len(supers[0].args) == 1 and norm(supers[0].args[0]) == vparam
+        sargs = [norm(a) for a in supers[0].args] + [norm(k.value) for k in supers[0].keywords] if len(supers) == 1 else []
+        passes_value = len(supers) == 1 and sargs == [vparam]
         rep.check(passes_value, "C17-R1", init.site(), f"{cls.name}: the (normalised) value is what reaches the base constructor", f"{[norm(s) for s in supers]}", key=f"{init.key}|super-arg")
         for v in samples:
             run_ = run_int_cfg(ctx, init, {vparam: v}, lambda n: None, lambda n, k: None, decide=decide)
